@@ -21,9 +21,11 @@ EPS = 1e-9
 class _Prod:
     """one scripted source of admission requests: wait script[i] after its previous request was served, then ask"""
 
-    def __init__(self, script, pcancel):
+    def __init__(self, script, pcancel, hold=None):
         self.script = list(script or [])
         self.pcancel = pcancel
+        self.hold = hold
+        self.loading_until = None    # a granted admission is held for a loading time: the item enters at this instant
         self.i = 0
         self.req = self.script[0] if self.script else None     # time of the next admission request
         self.waiting = False
@@ -44,16 +46,37 @@ class _Prod:
     def withdraws(self):
         return bool(self.pcancel and self.i < len(self.pcancel) and self.pcancel[self.i])
 
+    def hold_time(self):
+        return self.hold[self.i] if self.hold and self.i < len(self.hold) and self.hold[self.i] > 0 else 0
+
 
 def simulate(L, il, v, cap, acc, producer, consumer, T, admit_first=(), chold=None, ccancel=None, pcancel=None,
-             producer2=None, pcancel2=None):
+             producer2=None, pcancel2=None, hold=None):
     """admit_first: collection of tie indices (in order of occurrence) resolved as 'admission before the stall'"""
     t = 0.0
     belt = []            # fronts of the items on the belt, head first (not yet offered)
     ids = []             # item indices parallel to belt
     offered = None       # index of the item waiting at the exit
     admit, offer, got = [], {}, {}
-    prods = [_Prod(producer, pcancel)] + ([_Prod(producer2, pcancel2)] if producer2 else [])
+    prods = [_Prod(producer, pcancel, hold)] + ([_Prod(producer2, pcancel2)] if producer2 else [])
+
+    def loading():
+        return any(q.loading_until is not None for q in prods)
+
+    def grant(q, t):
+        """the admission of q is granted at t: withdrawn at once, held for a loading time, or used at once"""
+        if q.withdraws():
+            withdrawn.append(t)          # admission granted and withdrawn at once: nothing enters
+            q.served(t)
+        elif q.hold_time() > 0:
+            q.waiting = False
+            q.req = None
+            q.loading_until = t + q.hold_time()    # one admission at a time: nothing else is admitted till the put
+        else:
+            belt.append(0.0)
+            ids.append(len(admit))
+            admit.append(t)
+            q.served(t)
 
     def first_waiting():
         w = [q for q in prods if q.waiting]
@@ -80,6 +103,8 @@ def simulate(L, il, v, cap, acc, producer, consumer, T, admit_first=(), chold=No
         for q in prods:
             if q.req is not None and not q.waiting:
                 cands.append(q.req)
+            if q.loading_until is not None:
+                cands.append(q.loading_until)
         p_waiting = any(q.waiting for q in prods)
         if c_req is not None and not c_waiting:
             cands.append(c_req)
@@ -87,7 +112,7 @@ def simulate(L, il, v, cap, acc, producer, consumer, T, admit_first=(), chold=No
             cands.append(take_at)
         if belt and not frozen and offered is None:
             cands.append(t + max(0.0, (L - belt[0])) / v)
-        if p_waiting and len(belt) + (1 if offered is not None else 0) < cap and not frozen:
+        if p_waiting and len(belt) + (1 if offered is not None else 0) < cap and not frozen and not loading():
             if not belt:
                 cands.append(t)
             else:
@@ -130,13 +155,17 @@ def simulate(L, il, v, cap, acc, producer, consumer, T, admit_first=(), chold=No
             st0 = offered is not None
             fr0 = st0 and not acc
             q = first_waiting()
-            if q is not None and len(belt) + (1 if st0 else 0) < cap and not fr0 and (not belt or belt[-1] >= il - EPS):
-                if q.withdraws():
-                    withdrawn.append(t)      # admission granted and withdrawn at once: nothing enters
-                else:
-                    belt.append(0.0)
-                    ids.append(len(admit))
-                    admit.append(t)
+            if q is not None and len(belt) + (1 if st0 else 0) < cap and not fr0 and (not belt or belt[-1] >= il - EPS) \
+                    and not loading():
+                grant(q, t)
+                progressed = True
+        # ---- a held admission is used: the item enters now (on a stopped belt it stays at the entrance)
+        for q in prods:
+            if q.loading_until is not None and q.loading_until <= t + EPS * max(1.0, t):
+                q.loading_until = None
+                belt.append(0.0)
+                ids.append(len(admit))
+                admit.append(t)
                 q.served(t)
                 progressed = True
         # ---- consumer request
@@ -192,15 +221,10 @@ def simulate(L, il, v, cap, acc, producer, consumer, T, admit_first=(), chold=No
         stalled = offered is not None
         frozen = stalled and not acc
         q = first_waiting()
-        if q is not None and len(belt) + (1 if stalled else 0) < cap and not frozen and (not belt or belt[-1] >= il - EPS):
+        if q is not None and len(belt) + (1 if stalled else 0) < cap and not frozen and (not belt or belt[-1] >= il - EPS) \
+                and not loading():
             # while stalled on an accumulating belt the entrance must still be reachable
-            if q.withdraws():
-                withdrawn.append(t)          # admission granted and withdrawn at once: nothing enters
-            else:
-                belt.append(0.0)
-                ids.append(len(admit))
-                admit.append(t)
-            q.served(t)
+            grant(q, t)
             progressed = True
         if not progressed and dt <= 0:
             # nothing can happen any more at this instant
